@@ -334,8 +334,11 @@ class Check:
             "coverage": cov, "assumptions": self.assumptions,
             "wall_s": round(time.time() - self.t0, 2), "violations": len(self.violations),
         }
-        os.makedirs(os.path.join(VERIF, "evidence"), exist_ok=True)
-        with open(os.path.join(VERIF, "evidence", f"{self.prop}.json"), "w", encoding="utf-8") as f:
+        # evidence/ describes runs against /repo only: a run against another tree (VERIF_REPO=<scratch copy with a seeded
+        # change>) writes its evidence next to that tree instead
+        evdir = os.path.join(VERIF, "evidence") if os.path.realpath(REPO) == "/repo" else os.path.join(REPO, ".verif-evidence")
+        os.makedirs(evdir, exist_ok=True)
+        with open(os.path.join(evdir, f"{self.prop}.json"), "w", encoding="utf-8") as f:
             json.dump(ev, f, indent=1, default=str)
         for fid, n in sorted(self.known_hits.items()):
             e = self.finding(fid)
